@@ -10,6 +10,7 @@ import Driver.C10Mon
 import Driver.C15Mon
 import Driver.C06Mon
 import Driver.C17Mon
+import Driver.C03Mon
 open Kv
 
 structure MState where
@@ -17,6 +18,7 @@ structure MState where
   c07 : Drv.Flow.MonSt := {}
   c08 : C08.MonState := {}
   c17 : Drv.C17.MonSt := {}
+  c03 : Drv.C03.MonSt := {}
   deriving Inhabited
 
 /-- monitor-only driver: imports nothing generated, so it builds whatever the source looks like -/
@@ -34,6 +36,7 @@ def dispatchMon (st : MState) (prop : String) (l : Line) : MState × String :=
   | "C15" => (st, Drv.C15.stepMon l)
   | "C06" => (st, Drv.C06.step l)
   | "C17" => let (s, r) := Drv.C17.stepMon st.c17 l; ({ st with c17 := s }, r)
+  | "C03" => let (s, r) := Drv.C03.stepMon st.c03 l; ({ st with c03 := s }, r)
   | _ => (st, "bad-op")
 
 def main : IO Unit := driverMain dispatchMon {}
